@@ -539,3 +539,95 @@ pub fn selftest() -> std::result::Result<(), String> {
     }
     Ok(())
 }
+
+// ------------------------------------------------------------------ shared handles
+// The reader is moved into / mutably borrowed by the archive; a shared handle lets the monitor
+// look at the operation log between API calls (single-threaded use; the mutex is never contended).
+
+use std::sync::{Arc, Mutex};
+
+#[derive(Clone)]
+pub struct Shared {
+    pub core: Arc<Mutex<Core>>,
+}
+
+impl Shared {
+    pub fn recording(data: Vec<u8>) -> Self {
+        let mut c = Core::new(data);
+        c.record = true;
+        Self {
+            core: Arc::new(Mutex::new(c)),
+        }
+    }
+    pub fn log_len(&self) -> usize {
+        self.core.lock().expect("lock").log.len()
+    }
+    pub fn ops_since(&self, from: usize) -> Vec<Op> {
+        self.core.lock().expect("lock").log[from..].to_vec()
+    }
+}
+
+impl Read for Shared {
+    fn read(&mut self, buf: &mut [u8]) -> Result<usize> {
+        self.core.lock().expect("lock").do_read(buf)
+    }
+}
+
+impl Seek for Shared {
+    fn seek(&mut self, pos: SeekFrom) -> Result<u64> {
+        self.core.lock().expect("lock").do_seek(pos)
+    }
+}
+
+#[derive(Clone)]
+pub struct SharedA {
+    pub core: Arc<Mutex<Core>>,
+    pub alternate: bool,
+    flip: bool,
+}
+
+impl SharedA {
+    pub fn recording(data: Vec<u8>, alternate: bool) -> Self {
+        let mut c = Core::new(data);
+        c.record = true;
+        Self {
+            core: Arc::new(Mutex::new(c)),
+            alternate,
+            flip: false,
+        }
+    }
+    pub fn log_len(&self) -> usize {
+        self.core.lock().expect("lock").log.len()
+    }
+    pub fn ops_since(&self, from: usize) -> Vec<Op> {
+        self.core.lock().expect("lock").log[from..].to_vec()
+    }
+    fn pend(&mut self, cx: &mut Context<'_>) -> bool {
+        if !self.alternate {
+            return false;
+        }
+        self.flip = !self.flip;
+        if self.flip {
+            cx.waker().wake_by_ref();
+        }
+        self.flip
+    }
+}
+
+impl AsyncRead for SharedA {
+    fn poll_read(mut self: Pin<&mut Self>, cx: &mut Context<'_>, buf: &mut [u8]) -> Poll<Result<usize>> {
+        if self.pend(cx) {
+            return Poll::Pending;
+        }
+        Poll::Ready(self.core.lock().expect("lock").do_read(buf))
+    }
+}
+
+impl AsyncSeek for SharedA {
+    fn poll_seek(mut self: Pin<&mut Self>, cx: &mut Context<'_>, pos: SeekFrom) -> Poll<Result<u64>> {
+        if self.pend(cx) {
+            return Poll::Pending;
+        }
+        Poll::Ready(self.core.lock().expect("lock").do_seek(pos))
+    }
+}
